@@ -2,6 +2,7 @@
 From Coq Require Import List Bool Arith ZArith NArith.
 Import ListNotations.
 From HV Require Export run.C04Run spec.InsertS.
+From HV Require Import proofs.InsertP.
 
 (* how a HUGR of the case is given: by its history of public calls, every call with the value the implementation
    returned (the oracle of the free-index choices, model/Graph.v [step]), or (builder programs, no deletions, so
@@ -62,19 +63,30 @@ Record case := {
   k_map : list (nid * nid); k_res : res; k_obsA' : obs; k_obsB' : obs }.
 
 (* the indices the copies receive are not prescribed by the property: the returned mapping is the oracle of the
-   model's choices, followed where admissible (a free index of A); the model's mapping is then compared with it *)
+   model's choices, followed where admissible (an index that is not live in A and not yet taken by another copy);
+   the model's mapping is then compared with it, i.e. the returned mapping must be injective onto such indices.
+   The property quantifies over insertion parents OF A (and, for the wrappers, over wires the builder accepts): a
+   parent that is not a live node of A, or a wire whose source has no sibling among the ancestors of the inserted
+   root, is outside the guard -- the guard of C08_insert_iso_and_frame / C08_insert_wrappers_attach_wires, judged
+   on the MODEL's A -- and then neither the exception class nor what the call leaves behind is compared (hugr-py
+   allocates the copy of B's root before it notices; refusing up front is as good). *)
+Definition call_in_guard (A : zhugr) (c : case) : bool :=
+  let p := match k_parent c with Some p => p | None => root A end in
+  a_live (abs A) p && match k_wires c with Some (ws, _) => wires_guard (abs A) p ws | None => true end.
 Definition corr (c : case) : bool :=
   match build (k_A c), build (k_B c) with
   | Some A, Some B =>
       obs_eqb (k_obsA c) (model_obs (k_uA c) A) && obs_eqb (k_obsB c) (model_obs (k_uB c) B) &&
-      let '(A', mp, r) :=
-        match k_wires c, k_parent c with
-        | Some (ws, (ki, ko)), Some p => insert_wrapped (k_map c) A B p ws ki ko
-        | _, _ => insert_hugr (k_map c) A B (k_parent c)
-        end in
-      res_eqb (k_res c) r &&
-      (match r with Ok => perm_eqb (pair_eqb Nat.eqb Nat.eqb) (k_map c) mp | _ => true end) &&
-      obs_eqb (k_obsA' c) (model_obs (k_uA c) A') && obs_eqb (k_obsB' c) (model_obs (k_uB c) B)
+      if call_in_guard A c then
+        let '(A', mp, r) :=
+          match k_wires c, k_parent c with
+          | Some (ws, (ki, ko)), Some p => insert_wrapped (k_map c) A B p ws ki ko
+          | _, _ => insert_hugr (k_map c) A B (k_parent c)
+          end in
+        res_eqb (k_res c) r &&
+        (match r with Ok => perm_eqb (pair_eqb Nat.eqb Nat.eqb) (k_map c) mp | _ => true end) &&
+        obs_eqb (k_obsA' c) (model_obs (k_uA c) A') && obs_eqb (k_obsB' c) (model_obs (k_uB c) B)
+      else true
   | _, _ => true
   end.
 
